@@ -8,7 +8,16 @@ cd /repo || exit 2
 if ! git diff --quiet; then echo "refusing: /repo has uncommitted changes"; exit 2; fi
 if ! git apply --check "$PATCH" 2>/dev/null; then echo "patch does not apply: $PATCH"; exit 2; fi
 git apply "$PATCH"
-trap 'git -C /repo checkout -- . ; git -C /repo clean -fdq src tests 2>/dev/null' EXIT
+# evidence files must only ever come from runs on the unchanged tree: keep them aside
+EVBAK=$(mktemp -d /dev/shm/rlv-evbak.XXXXXX)
+cp -a /verif/evidence/. "$EVBAK"/ 2>/dev/null
+restore() {
+  git -C /repo checkout -- . ; git -C /repo clean -fdq src tests 2>/dev/null
+  rm -rf /verif/evidence; mkdir -p /verif/evidence; cp -a "$EVBAK"/. /verif/evidence/ 2>/dev/null; rm -rf "$EVBAK"
+  # the harness binary was built against the changed tree: rebuild it against the restored one
+  (cd /verif/harness && cargo build --release --offline >/dev/null 2>&1)
+}
+trap restore EXIT
 for ID in "$@"; do
   OUT=$(cd /verif && VERIF_SEED=${VERIF_SEED:-5} ./check "$ID" ${TIER:-quick} 2>&1)
   RC=$?
